@@ -103,6 +103,9 @@ impl C03 {
             let mut muts = compressed_mutations(f);
             muts.extend(field_mutations(f));
             muts.extend(truncations(f, world));
+            if world {
+                muts.extend(header_mutations(f, case.exp, case.dir));
+            }
             muts
         };
         if shape == PAIR_MINIMAL {
@@ -297,7 +300,7 @@ impl Check for C03 {
         "fault_enumeration"
     }
     fn rule(&self) -> String {
-        format!("Fault enumeration through the model peer's field maps: for every message of every target (6 login protocol versions, 3 expansions, both directions; quick tier: one frame shape per message, thorough: three) a canonical frame is generated and every structured corruption is injected once (as many slots per message as its richest frame out of 6 candidates has enumerated faults, at least {}; thorough: two more shapes): truncation at each field boundary and inside a field (stream ends early / header announces less), every count/length/size/decompressed-size/mask-block-count field set to 0, 1, true+-1, 0x7F.., 0x80.., max, every enum field an undeclared value, Bool>=2, flags all-ones, DateTime out of range and at its field boundaries (hour 24, month 12, the day after the month's last with each of the 7 weekdays), a well-formed zlib stream that inflates to 1.25 GiB, strings without NUL / invalid UTF-8 / 300 bytes, packed-guid and built-in mask patterns announcing more than remains, sentinel-less achievement arrays; pairs of faults (T10: a string or count fault in one field AND the body ending at a later field boundary, on the richest and on the leanest frame of the message); slots beyond the enumerated faults and the sampled part draw compressed-payload corruption, lying headers, bit flips, random bodies and combinations. The faulty frame is placed after 0-2 intact messages and before one more, and is read through the opcode-enum reader, the typed expect helper (and read_initial_message for login) by the blocking (whole buffer and chunked with EINTR), tokio and async-std readers under a scheduled delivery, and (world) once more through the decrypting readers with the headers encrypted under the session key, as an authenticated hostile peer would send them. Every read must return Ok or Err; panics are caught with location, process deaths attributed by the supervisor, allocation observed by a counting allocator (budget 1 GiB per scenario). Non-trivial: the fault actually reached a reader (a mutated byte or the cut was delivered); distinct = distinct event-log hashes.", MIN_SLOTS)
+        format!("Fault enumeration through the model peer's field maps: for every message of every target (6 login protocol versions, 3 expansions, both directions; quick tier: one frame shape per message, thorough: three) a canonical frame is generated and every structured corruption is injected once (as many slots per message as its richest frame out of 6 candidates has enumerated faults, at least {}; thorough: two more shapes): truncation at each field boundary and inside a field (stream ends early / header announces less), every count/length/size/decompressed-size/mask-block-count field set to 0, 1, true+-1, 0x7F.., 0x80.., max, every enum field an undeclared value, Bool>=2, flags all-ones, DateTime out of range and at its field boundaries (hour 24, month 12, the day after the month's last with each of the 7 weekdays), a well-formed zlib stream that inflates to 1.25 GiB, strings without NUL / invalid UTF-8 / 300 bytes, packed-guid and built-in mask patterns announcing more than remains, sentinel-less achievement arrays; header forms and sizes no writer produces (T11: a size smaller than the opcode it includes; for Wrath server messages the 3-byte form carrying 0..4, 0x7FFF, 0x8000, 0x7FFFFF; with and without bytes after the header); pairs of faults (T10: a string or count fault in one field AND the body ending at a later field boundary, on the richest and on the leanest frame of the message); slots beyond the enumerated faults and the sampled part draw compressed-payload corruption, lying headers, bit flips, random bodies and combinations. The faulty frame is placed after 0-2 intact messages and before one more, and is read through the opcode-enum reader, the typed expect helper (and read_initial_message for login) by the blocking (whole buffer and chunked with EINTR), tokio and async-std readers under a scheduled delivery, and (world) once more through the decrypting readers with the headers encrypted under the session key, as an authenticated hostile peer would send them. Every read must return Ok or Err; panics are caught with location, process deaths attributed by the supervisor, allocation observed by a counting allocator (budget 1 GiB per scenario). Non-trivial: the fault actually reached a reader (a mutated byte or the cut was delivered); distinct = distinct event-log hashes.", MIN_SLOTS)
     }
     fn assumptions(&self) -> Vec<String> {
         vec![
